@@ -5,6 +5,7 @@
 #ifndef C04_SHIM_HANDLE_HPP
 #define C04_SHIM_HANDLE_HPP
 #include "codec_shim_handle.hpp"
+#include "c04_codes.h"  // written by harness/c04.py from the translated table of documented codes
 
 // exactly n accessible bytes: for n == 0 a pointer one past a 1-byte allocation, so that ANY access is reported
 inline std::uint8_t* c04_exact_alloc(std::size_t n, void** base)
@@ -48,7 +49,7 @@ int handle_c04(const char* op, const char* rest, void (*probe)())
         void* inbase = nullptr;
         const std::uint8_t* inx = c04_exact_copy(in, n, &inbase);
         const auto r = deserialize(o2, nunavut::support::const_bitspan{inx, n});
-        if (!r) { o_str(cpp_err_name(static_cast<int>(r.error()))); }
+        if (!r) { o_str(c04_cpp_err_name(static_cast<int>(r.error()))); }
         else { o_str("ok"); dump(o2); o_u64(r.value()); }
         std::free(inbase);
         std::free(in);
@@ -65,7 +66,7 @@ int handle_c04(const char* op, const char* rest, void (*probe)())
         std::uint8_t* buf = c04_exact_alloc(cap, &bufbase);
         if (cap) { std::memset(buf, 0x55, cap); }
         const auto r = serialize(obj, nunavut::support::bitspan{buf, cap});
-        if (!r) { o_str(cpp_err_name(static_cast<int>(r.error()))); }
+        if (!r) { o_str(c04_cpp_err_name(static_cast<int>(r.error()))); }
         else if (r.value() > cap) { o_str("err:size-above-capacity"); }
         else { o_str("ok"); o_hex(buf, r.value()); }
         std::free(bufbase);
